@@ -1297,8 +1297,8 @@ pub fn gen(ctx: &mut Ctx) {
             .unwrap_or_default();
         let tbl = table_of(&texts);
         if mine!() { ctx.req(&format!("forge02 {} 0 0 - {} {}", key.0, tbl, arg)); }
-        // 1-bit edits across the WHOLE main header (quick: every 5th bit, phase from the seed; thorough: every bit)
-        let step = ctx.q(5u64, 1);
+        // 1-bit edits across the WHOLE main header (quick: every 7th bit, phase from the seed; thorough: every bit)
+        let step = ctx.q(7u64, 1);
         let mut bit = o[2] * 8 + (seed + ki as u64) % step;
         while bit < o[3] * 8 {
             let off = (bit / 8) as usize;
@@ -1306,7 +1306,7 @@ pub fn gen(ctx: &mut Ctx) {
             bit += step;
         }
         // … and across the payload (the forger then rewrites PAYLOADDIGEST, i.e. the signed header)
-        let step = ctx.q(11u64, 1);
+        let step = ctx.q(13u64, 1);
         let mut bit = o[3] * 8 + (seed + ki as u64) % step;
         while bit < o[4] * 8 {
             let off = (bit / 8) as usize;
